@@ -246,11 +246,14 @@ class AbstractFieldFormat(object):
 
         :raises cutplace.errors.FieldValueError: if ``value`` is invalid
         """
-        self.validate_characters(value)
         if self.data_format.format == data.FORMAT_FIXED:
             possibly_stripped_value = value.strip()
         else:
             possibly_stripped_value = value
+        if possibly_stripped_value != "":
+            # For fixed format, a value consisting only of blanks counts as empty even if the blank is not
+            # one of the allowed characters.
+            self.validate_characters(value)
         # For fixed format, a value consisting only of blanks counts as empty.
         self.validate_empty(possibly_stripped_value)
         self.validate_length(value)
